@@ -247,6 +247,84 @@ pub fn nested_variety(f: &F) -> Vec<R> {
     out
 }
 
+/// one compound / statement of constructor `tag` over (x, y)
+pub fn mk2(tag: Tag, x: &R, y: &R) -> R {
+    match tag.shape() {
+        Shape::Set | Shape::Seq => R::node(tag, vec![x.clone(), y.clone()]),
+        Shape::Image => R::image(tag, 1, vec![x.clone(), y.clone()]),
+        Shape::Unary => R::node(tag, vec![x.clone()]),
+        _ => R::pair(tag, x.clone(), y.clone()),
+    }
+}
+
+/// "Reducible" shapes: terms a simplifying implementation (OpenNARS-style reductions: flattening
+/// a compound nested in its own constructor, double negation, image of a product, a difference or
+/// statement between equal terms, a singleton) would rewrite. The library promises to keep them
+/// as written, so every one is a distinct value that must survive every operation.
+pub fn reducible(_f: &F) -> Vec<R> {
+    let a = R::word("a");
+    let b = R::atom(Tag::IVar, "b1");
+    let all: Vec<Tag> = COMPOUND_TAGS.iter().chain(STATEMENT_TAGS.iter()).copied().collect();
+    let mut out = vec![];
+    for &t in &all {
+        for &u in &all {
+            let inner = mk2(u, &a, &b);
+            let inner_rev = mk2(u, &b, &a);
+            match t.shape() {
+                Shape::Set | Shape::Seq => {
+                    for other in [&a, &b] {
+                        out.push(R::node(t, vec![inner.clone(), other.clone()]));
+                        out.push(R::node(t, vec![other.clone(), inner.clone()]));
+                    }
+                    out.push(R::node(t, vec![inner.clone()]));
+                    out.push(R::node(t, vec![inner.clone(), a.clone(), b.clone()]));
+                    out.push(R::node(t, vec![a.clone(), b.clone(), inner.clone()]));
+                    out.push(R::node(t, vec![inner.clone(), inner_rev.clone()]));
+                }
+                Shape::Image => {
+                    for idx in 0..=2 {
+                        for other in [&a, &b] {
+                            out.push(R::image(t, idx, vec![inner.clone(), other.clone()]));
+                            out.push(R::image(t, idx, vec![other.clone(), inner.clone()]));
+                        }
+                    }
+                    out.push(R::image(t, 0, vec![inner.clone()]));
+                    out.push(R::image(t, 1, vec![inner.clone()]));
+                    for idx in 0..=3 {
+                        out.push(R::image(t, idx, vec![inner.clone(), a.clone(), b.clone()]));
+                    }
+                }
+                Shape::Unary => {
+                    out.push(R::node(t, vec![inner.clone()]));
+                    out.push(R::node(t, vec![R::node(t, vec![inner.clone()])]));
+                }
+                _ => {
+                    for other in [&a, &b] {
+                        out.push(R::pair(t, inner.clone(), other.clone()));
+                        out.push(R::pair(t, other.clone(), inner.clone()));
+                    }
+                    out.push(R::pair(t, inner.clone(), inner.clone()));
+                    out.push(R::pair(t, inner.clone(), inner_rev.clone()));
+                }
+            }
+        }
+        // equal operands / a singleton / the constructor applied to itself twice
+        match t.shape() {
+            Shape::Set | Shape::Seq => {
+                out.push(R::node(t, vec![a.clone(), a.clone()]));
+                out.push(R::node(t, vec![a.clone()]));
+            }
+            Shape::Unary => {
+                out.push(R::node(t, vec![R::node(t, vec![a.clone()])]));
+                out.push(R::node(t, vec![R::node(t, vec![R::node(t, vec![a.clone()])])]));
+            }
+            Shape::Image => {}
+            _ => out.push(R::pair(t, a.clone(), a.clone())),
+        }
+    }
+    out
+}
+
 /// U_term for a format and tier (distinct recipes; see DESIGN 3.1).
 pub fn u_term(f: &F, tier: Tier) -> Vec<R> {
     let mut out = all_atoms(f);
@@ -283,6 +361,7 @@ pub fn u_term(f: &F, tier: Tier) -> Vec<R> {
         }
     }
     out.extend(numeric_terms());
+    out.extend(reducible(f));
     out
 }
 
